@@ -10,6 +10,7 @@ Serves C01, C03 (topology-aware), C02 (balloons), C04, C05, C09, C12, C14 (both 
   4. TLC validates the traces against Trace_L2 (predicates of Pipeline, TAPreds, BalloonPreds, MemOps)
   5. verdict from real-code traces only; known findings matched on (predicate, signature)
 """
+import glob
 import json
 import os
 import random
@@ -60,7 +61,23 @@ def policies_for(pid):
     return ["ta"] if pid in ("C01", "C03") else ["balloons"] if pid == "C02" else (["ta", "balloons"] if both else ["ta"])
 
 
+def regress_histories(pid):
+    """Histories kept from earlier findings (/verif/regress/<pid>/*.json): replayed in every run, so that a repaired
+    defect is reported again if it ever returns."""
+    out = []
+    for f in sorted(glob.glob(os.path.join(vlib.ROOT, "regress", pid, "*.json"))):
+        for h in json.load(open(f)).get("histories", []):
+            h = dict(h)
+            h.pop("twin", None)
+            out.append(h)
+    return out
+
+
 def gen_histories(ctx, binp, pid):
+    return _gen_histories(ctx, binp, pid) + regress_histories(pid)
+
+
+def _gen_histories(ctx, binp, pid):
     rnd = random.Random(ctx.seed * 7919 + sum(map(ord, pid)))
     ms = l2gen.machines(binp)
     q = ctx.quick
